@@ -20,7 +20,7 @@ func genVariant(r *simrt.Rand, serialOnly bool) simapi.Variant {
 		v.MapSeed = r.Uint64()
 	}
 	sc := &simrt.SchedConfig{}
-	choice := r.Intn(10)
+	choice := r.Intn(14)
 	if serialOnly {
 		choice = r.Intn(3)
 	}
@@ -31,14 +31,17 @@ func genVariant(r *simrt.Rand, serialOnly bool) simapi.Variant {
 		sc.Strategy, sc.PrioRule = simrt.StratPrio, simrt.PrioMainFirst
 	case 2:
 		sc.Strategy, sc.PrioRule = simrt.StratPrio, simrt.PrioReverse
-	case 3, 4, 5, 6:
+	case 3, 4, 5, 6, 7, 8:
 		sc.Strategy = simrt.StratPrio
 		sc.PrioRule = simrt.PrioRandom
 		if r.Intn(2) == 0 {
 			sc.PrioRule = simrt.PrioRandomMainLo
 		}
 		sc.PrioSeed = r.Uint64()
-		d := r.Intn(4) // number of change points
+		d := 1 + r.Intn(3) // number of change points
+		if r.Intn(6) == 0 {
+			d = 0
+		}
 		for i := 0; i < d; i++ {
 			v.CPFrac = append(v.CPFrac, r.Float64())
 		}
